@@ -16,7 +16,22 @@ def mod():
     return m
 
 
-def build(m, s, form):
+def build(m, s, form, probes=None):
+    """form 0: iterable of pairs, form 1: two sequences; with `probes` the set additionally has a copy that was given another
+    relation (the idiom of the repository's tests: X = A.copy(); X.eq_relation = ...) and that copy has answered membership
+    queries before the set under test is used - a sibling must not influence it"""
+    ss = build0(m, s, form)
+    if probes is not None:
+        others = [m.SpanSetExactEqRelation, m.SpanSetPartOfEqRelation, m.SpanSetIncludesEqRelation, m.SpanSetOverlapsEqRelation]
+        for k, other in enumerate(others):
+            sib = ss.copy()
+            sib.eq_relation = other()
+            for p in probes:
+                p in sib
+    return ss
+
+
+def build0(m, s, form):
     rel = {"exact": m.SpanSetExactEqRelation, "partof": m.SpanSetPartOfEqRelation, "includes": m.SpanSetIncludesEqRelation,
            "overlaps": m.SpanSetOverlapsEqRelation}[s["rel"]]()
     spans = [tuple(x) for x in s["spans"]]
@@ -31,7 +46,10 @@ def once_sorted(ss):
 
 
 def observe(m, c, form):
-    A, B = build(m, c["a"], form), build(m, c["b"], (form + 1) % 2)
+    probes = None
+    if form >= 2:
+        probes = [tuple(x) for x in c["a"]["spans"]] + [tuple(x) for x in c["b"]["spans"]]
+    A, B = build(m, c["a"], form % 2, probes), build(m, c["b"], (form + 1) % 2, probes)
     return {"stored_a": [list(x) for x in A],
             "and": once_sorted(A & B), "or": once_sorted(A | B), "sub": once_sorted(A - B), "xor": once_sorted(A ^ B),
             "le": int(A <= B), "lt": int(A < B), "eq": int(A == B), "ne": int(A != B), "ge": int(A >= B), "gt": int(A > B),
@@ -59,7 +77,7 @@ def run(ctx):
 
     def one(c, exp):
         n[0] += 1
-        compare(ctx, "SpanSet", c, norm(exp), safe(lambda: observe(m, c, n[0] % 2)))
+        compare(ctx, "SpanSet", c, norm(exp), safe(lambda: observe(m, c, n[0] % 4)))
     cases.enumerate_cases(SPEC, model.constants_block(k), ctx, "spanset", one, timeout=2400)
     ctx.exhaustive = True
     rnd = random.Random(ctx.seed * 7919 + 10)
@@ -75,5 +93,5 @@ def run(ctx):
            for _ in range(300 if quick else 5000)]
     big = dict(k, MaxPoint=10)
     for i, (c, exp) in enumerate(zip(ins, cases.evaluate(SPEC, model.constants_block(big), ins, ctx, "spanset_big"))):
-        compare(ctx, "SpanSet", c, norm(exp), safe(lambda: observe(m, c, i % 2)))
+        compare(ctx, "SpanSet", c, norm(exp), safe(lambda: observe(m, c, i % 4)))
     ctx.extra["bounds"] = k
